@@ -121,7 +121,7 @@ package side_chain_manager
 
 // ---- approvals (validator quorum) -------------------------------------------------------------------
 //@ func ApproveRegisterSideChain
-//@   property C33, C35, C18
+//@   property C33, C35, C18, C32
 //@   mode abstract
 //@   requires native != nil && native.tx != nil
 //@   modifies Store
@@ -144,7 +144,7 @@ package side_chain_manager
 //@   ensures[c33-pending] !fired ==> Store[scKey("sideChainApply", cid)] == old(Store)[scKey("sideChainApply", cid)]
 
 //@ func ApproveUpdateSideChain
-//@   property C33, C35, C18
+//@   property C33, C35, C18, C32
 //@   mode abstract
 //@   requires native != nil && native.tx != nil
 //@   modifies Store
@@ -164,7 +164,7 @@ package side_chain_manager
 //@   ensures[c35-requested] fired ==> old(Store)[scKey("updateSideChainRequest", cid)] != None
 
 //@ func ApproveQuitSideChain
-//@   property C33, C35, C18
+//@   property C33, C35, C18, C32
 //@   mode abstract
 //@   requires native != nil && native.tx != nil
 //@   modifies Store
